@@ -510,7 +510,7 @@ PROPS.update({
         explanation="theorems: the rule set the emitted templates obey (helper items free of the field type, Self-expanded generics in the free Eq-assertion function, parenthesised && operands, by-value empty match) and the hygiene theorem; the model accepts exactly the documented uses (C05). L2: a grammar of well-typed items compiled under #![deny(warnings)]; every rustc diagnostic located in derive_ex's output is a violation.",
         theorems=[(CMP + 'C13Hyg', ['DX.attr_output_hygienic', 'DX.derive_output_hygienic']), (CMP + 'C20', ['DX.helper_free_of_field_type', 'DX.expandSelf_no_self', 'DX.cmp_generics_self_expanded',
                                  'DX.thisTy_no_self', 'DX.eq_conjuncts_parenthesised', 'DX.empty_match_by_value',
-                                 'DX.introduced_names_reserved']),
+                                 'DX.introduced_names_reserved', 'DX.bad_key_refused']),
                   (CMP + 'C05', ['DX.trait_error_iff_misuse', 'DX.valid_use_accepted'])],
         l1=[('all', 3000, 60000), ('cmpN', 2000, 40000), ('impl', 1000, 20000)],
         labels=r'^e\d+:|^impl',
